@@ -227,6 +227,69 @@ pub fn replay(a: &Args) -> i32 {
             }
         }
     }
+    // long MATCHING routes: length plays no part in the match rule
+    let long_exact = format!("/long/{}", "segment/".repeat(50));
+    let with_long = Router::new().route(&long_exact, Tagged(7)).add_rpc_service(RpcSvc(Tagged(2))).route("/", Tagged(4));
+    for k in [0usize, 1, 100, 200, 245, 250, 251, 252, 253, 260, 300, 1000, 5000, 70_000] {
+        for fill in ["y", "é", "a/", "\u{1F600}"] {
+            evaluations += 1;
+            let path = format!("/svc/{}{}", "x".repeat(k), fill.repeat(3));
+            match std::panic::catch_unwind(std::panic::AssertUnwindSafe(|| call(&with_long, &path))) {
+                Ok((2, _)) => {}
+                Ok((svc, _)) => {
+                    if mismatches.len() < 12 {
+                        mismatches.push(json!({"what": format!("a path of {} bytes under the RPC service's prefix reached service {svc}, match rule says 2", path.len())}));
+                    }
+                }
+                Err(_) => mismatches.push(json!({"what": format!("routing panicked on a matching path of {} bytes", path.len())})),
+            }
+        }
+    }
+    evaluations += 1;
+    match std::panic::catch_unwind(std::panic::AssertUnwindSafe(|| call(&with_long, &long_exact))) {
+        Ok((7, _)) => {}
+        other => mismatches.push(json!({"what": format!("an exact route of {} bytes was not dispatched to its service: {:?}", long_exact.len(), other.ok())})),
+    }
+    // the same rule end to end: requests from a remote peer over two real networks reach the
+    // router with the route the caller sent (the empty route included)
+    {
+        let rt = tokio::runtime::Builder::new_multi_thread().worker_threads(2).enable_all().build().unwrap();
+        let probes: Vec<(String, u64)> = vec![
+            ("".into(), 0), ("/".into(), 4), ("//".into(), 0), ("/a".into(), 1), ("/a/".into(), 0), ("a".into(), 0),
+            ("/b/c".into(), 3), ("/b".into(), 0), ("/svc/".into(), 2), ("/svc".into(), 0), ("/svc/x/y".into(), 2),
+            (format!("/svc/{}", "z".repeat(300)), 2), (" /a".into(), 0), ("/A".into(), 0),
+        ];
+        let server_router = router.clone();
+        let res: Result<Vec<(String, u64, Option<u64>)>, String> = rt.block_on(async move {
+            let server = anemo::Network::bind("127.0.0.1:0").server_name("net").private_key([71; 32]).start(server_router).map_err(|e| e.to_string())?;
+            let client = anemo::Network::bind("127.0.0.1:0").server_name("net").private_key([72; 32]).start(Router::new()).map_err(|e| e.to_string())?;
+            let peer = client.connect(server.local_addr()).await.map_err(|e| e.to_string())?;
+            let mut out = Vec::new();
+            for (path, want) in probes {
+                let r = tokio::time::timeout(std::time::Duration::from_secs(10), client.rpc(peer, Request::new(Bytes::new()).with_route(path.clone()))).await;
+                let got = match r {
+                    Ok(Ok(resp)) if resp.status() == StatusCode::NotFound => Some(0),
+                    Ok(Ok(resp)) => resp.headers().get("svc").and_then(|s| s.parse().ok()).or(Some(999)),
+                    _ => None,
+                };
+                out.push((path, want, got));
+            }
+            let _ = client.shutdown().await;
+            let _ = server.shutdown().await;
+            Ok(out)
+        });
+        match res {
+            Ok(rows) => {
+                for (path, want, got) in rows {
+                    evaluations += 1;
+                    if got != Some(want) && mismatches.len() < 14 {
+                        mismatches.push(json!({"what": format!("over the network: route {:?} ({} bytes) reached {got:?}, match rule says {want}", if path.len() > 40 { &path[..40] } else { &path }, path.len())}));
+                    }
+                }
+            }
+            Err(e) => mismatches.push(json!({"what": format!("network probe could not be set up: {e}")})),
+        }
+    }
     std::panic::set_hook(default_hook);
     print_summary(&json!({"replayed": behaviours.len(), "evaluations": evaluations, "mismatches": mismatches}));
     0
